@@ -1,0 +1,59 @@
+//go:build verif
+
+package base
+
+import "github.com/alibaba/sentinel-golang/core/base"
+
+// Exports for the verification harness (compiled only with the "verif" build tag).
+
+// NewBucketLeapArrayWithTime creates a BucketLeapArray whose slots are laid out for the given creation time.
+func NewBucketLeapArrayWithTime(sampleCount uint32, intervalInMs uint32, now uint64) *BucketLeapArray {
+	bucketLengthInMs := intervalInMs / sampleCount
+	ret := &BucketLeapArray{
+		data: LeapArray{
+			bucketLengthInMs: bucketLengthInMs,
+			sampleCount:      sampleCount,
+			intervalInMs:     intervalInMs,
+			array:            nil,
+		},
+		dataType: "MetricBucket",
+	}
+	ret.data.array = NewAtomicBucketWrapArrayWithTime(int(sampleCount), bucketLengthInMs, now, ret)
+	return ret
+}
+
+func (bla *BucketLeapArray) VerifAddCountWithTime(now uint64, event base.MetricEvent, count int64) {
+	bla.addCountWithTime(now, event, count)
+}
+
+func (bla *BucketLeapArray) VerifUpdateConcurrencyWithTime(now uint64, concurrency int32) {
+	bla.updateConcurrencyWithTime(now, concurrency)
+}
+
+// VerifSlots returns (start, counters..., minRt, maxConcurrency) of every slot in index order.
+func (bla *BucketLeapArray) VerifSlots() [][]int64 {
+	out := make([][]int64, 0, bla.data.array.length)
+	for i := 0; i < bla.data.array.length; i++ {
+		ww := bla.data.array.data[i]
+		mb := ww.Value.Load().(*MetricBucket)
+		row := []int64{int64(ww.BucketStart)}
+		for e := 0; e < int(base.MetricEventTotal); e++ {
+			row = append(row, mb.counter[e])
+		}
+		row = append(row, mb.minRt, int64(mb.maxConcurrency))
+		out = append(out, row)
+	}
+	return out
+}
+
+func (m *SlidingWindowMetric) VerifGetSumWithTime(now uint64, event base.MetricEvent) int64 {
+	return m.getSumWithTime(now, event)
+}
+
+func (m *SlidingWindowMetric) VerifGetQPSWithTime(now uint64, event base.MetricEvent) float64 {
+	return m.getQPSWithTime(now, event)
+}
+
+func (m *SlidingWindowMetric) VerifBucketStartRange(now uint64) (uint64, uint64) {
+	return m.getBucketStartRange(now)
+}
